@@ -751,7 +751,15 @@ func binary(p *Parser, left Expr) (Expr, error) {
 	}
 	opToken := *p.previous
 
-	expr, err := p.expressionWithPrec(p.rule(opToken.Tag).prec)
+	// binary operators are left-associative, so the right operand has to bind
+	// tighter than the operator itself; compound assignment stays
+	// right-associative
+	prec := p.rule(opToken.Tag).prec
+	if prec > PrecAssign {
+		prec++
+	}
+
+	expr, err := p.expressionWithPrec(prec)
 	if err != nil {
 		return nil, err
 	}
